@@ -126,7 +126,11 @@ func runScan(in *qinput, prev *ast.AST) (scanResult, *ast.AST) {
 			if !sameRun(run, u1) || !sameRun(run, u2) {
 				res.UsedSame = false
 			}
-			res.SQLRuns = append(res.SQLRuns, toRun(fresh.ScanSQL(in.SQL)))
+			sqlRun := toRun(fresh.ScanSQL(in.SQL))
+			res.SQLRuns = append(res.SQLRuns, sqlRun)
+			if !sameRun(sqlRun, toRun(usedScanners[i].ScanSQL(in.SQL))) {
+				res.UsedSame = false
+			}
 		}
 	})
 	res.TreeSame = dump(tree) == before
